@@ -37,7 +37,9 @@ var namesFull = []string{
 	"a", "a/a", "a/a/a", "./a", "a/./a", "a//a", "a/", "out2", "out2/a",
 	"/a", "//a", "/a/a", "/out2/a",
 	".", "", "..", "/..",
-	"../a", "../a/a", "../out2", "../out2/a", "../out-evil/a", "../out.bak/a", "../../a", "./../a",
+	"../a", "../a/a", "../out2", "../out2/a", "../out-evil/a", "../out.bak/a", "../../a",
+	// case variants of the target directory (existing OUT, absent Out) and of its ancestors (S, l8)
+	"../OUT/a", "../Out/a", "../Out/a/a", "a/../../OUT/a", "a/../../Out/a", "../s/out/a", "../../L8/S/out/a", "./../a",
 	"a/../a", "a/../../a", "a/../..", "a/..", "/../a", "/../out2/a",
 	longSeg, longSeg + "/a", "a/" + longSeg, "../" + longSeg,
 }
@@ -46,7 +48,7 @@ var namesFull = []string{
 var namesQ = []string{"a", "a/a", "a/a/a", "out2", "out2/a", "/a", "..", "../a", "../a/a", "../out2/a", "a/../../a", longSeg}
 
 var targetsFull = []string{
-	"a", "a/a", "./a", "/a", "/a/a", "//a", "/out2", ".", "", "..", "../..", "../a", "../out2", "../../out2",
+	"a", "a/a", "./a", "/a", "/a/a", "//a", "/out2", ".", "", "..", "../..", "../a", "../out2", "../../out2", "../OUT", "../Out", "../OUT/keep",
 	"/..", "/../a", "a/..", "a/a/..", "a/a/../..", "a/a/../a", "a/a/../out2", longSeg,
 }
 
